@@ -483,7 +483,8 @@ class SimDevice:
             sel = self.cfg.get("noise_selector", 1)
             hello = bytes([sel])
             if self.cfg.get("noise_hello_name", True):
-                hello += self.cfg.get("noise_name", self.name).encode() + b"\x00" + self.mac.encode() + b"\x00"
+                raw_name = bytes.fromhex(self.cfg["noise_name_hex"]) if "noise_name_hex" in self.cfg else self.cfg.get("noise_name", self.name).encode()
+                hello += raw_name + b"\x00" + self.mac.encode() + b"\x00"
             if self.cfg.get("noise_empty_hello"):
                 hello = b""
             self._emit_raw(conn, wire.noise_outer(hello), {"name": "#noise_hello", "kind": "hello"}, latency=self.cfg.get("noise_hello_latency"))
